@@ -95,6 +95,16 @@ CHECKS = {
              'decides whether some linearisation is a behaviour of the reference store.',
         design='5/C15', technique='TLA+ reference store, TLC linearisability check of recorded call/return traces',
         note='Substrate doubles for redis and the object store; one delivered-marking round per message (multi-round is C03). ' + TB),
+    'C04': dict(
+        level='model_checking',
+        text='DiskStore.tla models DiskStorage at the grain of file-system effects (temp file, chunk writes, rename, unlink) '
+             'with a kill between any two effects and a restart; TLC checks for every history and crash point that '
+             'acknowledged messages are found intact and that whatever load() lists can be fetched, and finds the loss when '
+             'the deviation switches (acknowledge before the meta file, rewrite meta in place) are on. The same space is '
+             'replayed on a real directory: every history x kill before every effect x fresh DiskStorage + fresh Queue, and '
+             'TLC validates each recovery against the reference store of acknowledged operations.',
+        design='5/C04', technique='TLA+ effect-grain crash model (TLC exhaustive) + crash-point enumeration on the real code validated by TLC',
+        note='Process kill, not power loss. Effects are interposed via module attributes of slimta.diskstorage. ' + TB),
 }
 
 HOOK_COMMITS = []
